@@ -62,12 +62,14 @@ def run(run):
                     js = None
                 alone.append((query, js))
             run.count(("ruleset", case, tuple(r[0] for r in order)))
-            for gha in (False, True):
-                ws = os.path.join(tmp, "ws%d" % case)
+            # gha: False = local run; True = GitHub Actions with the workspace somewhere else; "inside" = GitHub Actions
+            # with the project checked out beneath the workspace (the usual layout on a runner)
+            for gha in (False, True, "inside"):
+                ws = os.path.dirname(proj.dir.rstrip("/")) if gha == "inside" else os.path.join(tmp, "ws%d" % case)
                 os.makedirs(ws, exist_ok=True)
                 env = dict(GITHUB_ACTIONS="true", GITHUB_WORKSPACE=ws) if gha else dict(GITHUB_ACTIONS="", GITHUB_WORKSPACE="")
                 for fmt in ("json", "sarif"):
-                    name = "report_%d_%s.%s" % (case, "gha" if gha else "plain", fmt)
+                    name = "report_%d_%s.%s" % (case, ("gha" if gha is True else "ghainside") if gha else "plain", fmt)
                     target = os.path.join(ws, name) if gha else os.path.join(tmp, name)
                     arg = name if gha else target
                     if os.path.exists(target):
@@ -82,6 +84,8 @@ def run(run):
                         continue
                     try:
                         rep = json.load(open(target))
+                        if gha == "inside":
+                            os.remove(target)       # this one sits next to the scratch project, not in our own directory
                     except Exception as ex:
                         run.violation("C17:report-not-json", "the %s report is not well-formed JSON" % fmt, dict(format=fmt, error=str(ex)))
                         continue
